@@ -1,4 +1,4 @@
-Require Import ZArith List.
+Require Import ZArith List Lia.
 Require Import BFL.Ops BFL.Density BFL.C16_Model.
 From mathcomp Require Import all_ssreflect all_algebra.
 From mathcomp Require Import ring.
@@ -259,13 +259,6 @@ Proof. by rewrite /transition_probability map_length seq_length. Qed.
 Lemma wna_Q_unit d (T q : F) : 0 < T -> 0 < q -> (wna_Q (O:=O) d T q : 'M[F]_(dim_n d)) \in unitmx.
 Proof. by move=> T0 q0; apply: spd_unit; exact: wna_Q_spd. Qed.
 
-(* the LDLT oracle's contract *)
-Definition sqrt_contract := forall n (P : 'M[F]_n), spd P -> sq P *m (sq P)^T = P.
-
-Lemma wna_sqrtQ_contract d (T q : F) : sqrt_contract -> 0 < T -> 0 < q ->
-  (wna_sqrtQ (O:=O) d T q : 'M[F]_(dim_n d)) *m (wna_sqrtQ (O:=O) d T q : 'M[F]_(dim_n d))^T = wna_Q (O:=O) d T q.
-Proof. by move=> C T0 q0; rewrite /wna_sqrtQ /=; apply: C; exact: wna_Q_spd. Qed.
-
 Lemma wna_noise_sample_spec d (T q : F) num zs :
   (wna_noise_sample (O:=O) d T q num zs).2 = skipn (dim_n d * num) zs /\
   forall (i : 'I_(dim_n d)) (j : 'I_num),
@@ -273,13 +266,28 @@ Lemma wna_noise_sample_spec d (T q : F) num zs :
     \sum_(k < dim_n d) (wna_sqrtQ (O:=O) d T q : 'M[F]_(dim_n d)) i k * List.nth (j * dim_n d + k)%N zs 0.
 Proof. by split=> // i j; rewrite /wna_noise_sample noise_sample_entry. Qed.
 
-Lemma wna_noise_cov d (T q : F) num zs : sqrt_contract -> 0 < T -> 0 < q ->
+(* covariance of the samples, from the factor's contract on THIS matrix only *)
+Lemma wna_noise_cov d (T q : F) num zs :
+  let L : 'M[F]_(dim_n d) := wna_sqrtQ (O:=O) d T q in
+  L *m L^T = wna_Q (O:=O) d T q ->
   let Z : 'M[F]_(dim_n d, num) := fill_colmajor (O:=O) (dim_n d) num zs in
   let W : 'M[F]_(dim_n d, num) := (wna_noise_sample (O:=O) d T q num zs).1 in
   Z *m Z^T = 1%:M -> W *m W^T = wna_Q (O:=O) d T q.
 Proof.
-move=> C T0 q0 Z W ZZ; rewrite /W /wna_noise_sample noise_sample_fst.
-by apply: linear_image_cov => //; exact: wna_sqrtQ_contract.
+move=> L LL Z W ZZ; rewrite /W /wna_noise_sample noise_sample_fst.
+exact: linear_image_cov.
+Qed.
+
+(* the blocks multiply block-wise: a factor of the 2x2 block gives a factor of Q *)
+Lemma blocks_mul_tr d (A : 'M[F]_2) :
+  (blocks (O:=O) d A : 'M[F]_(dim_n d)) *m (blocks (O:=O) d A : 'M[F]_(dim_n d))^T
+  = blocks (O:=O) d (A *m A^T).
+Proof.
+case: d; rewrite /blocks //.
+  by rewrite !blocks2_block (@tr_block_mx _ 2 2 2 2) (@mulmx_block _ 2 2 2 2 2 2) !trmx0 !mulmx0 !mul0mx !addr0 !add0r.
+rewrite !blocks3_block (@tr_block_mx _ 2 (2+2) 2 (2+2)) (@mulmx_block _ 2 (2+2) 2 (2+2) 2 (2+2)).
+rewrite (@tr_block_mx _ 2 2 2 2) (@mulmx_block _ 2 2 2 2 2 2).
+by rewrite !trmx0 !mulmx0 !mul0mx !addr0 !add0r.
 Qed.
 
 Lemma wna_motion_eq d (T q : F) c (X : 'M[F]_(dim_n d, c)) zs :
@@ -357,6 +365,97 @@ Proof.
 move=> E; have := linear_model_ctor_spec O n idxs rr rc R; rewrite E /=.
 case=> _ [_ [fill _]] a b am bn.
 by rewrite (lm_fill_entries fill) // subn0 add0n /= am /= mx_get_0.
+Qed.
+
+Lemma mx_build_get m n (A : 'M[F]_(m, n)) : mx_build m n (fun i j => mx_get A i j) = A.
+Proof. by apply/matrixP => i j; rewrite mxE mx_get_ord. Qed.
+
+(* the sensor's noise: sqrt_R_ is the oracle's factor of R; samples L Z have "covariance" R *)
+Lemma linear_model_noise_cov n (idxs : list nat) m (R : 'M[F]_m) H R' (L : 'M[F]_m) num zs :
+  linear_model_ctor (O:=O) n idxs R = inr (H, R', L) ->
+  R' = R /\ L = sq R /\
+  (L *m L^T = R ->
+   let Z : 'M[F]_(m, num) := fill_colmajor (O:=O) m num zs in
+   let W : 'M[F]_(m, num) := (noise_sample (O:=O) L num zs).1 in
+   Z *m Z^T = 1%:M -> W *m W^T = R).
+Proof.
+move=> E; have := linear_model_ctor_spec O n idxs m m R; rewrite E /=.
+case=> -> [-> _]; rewrite mx_build_get; split=> //; split=> // LL ZZ.
+exact: (linear_image_cov LL ZZ).
+Qed.
+
+(* ---------------------------------------------------------------- sensor descriptions *)
+
+Lemma sabs1_01 (b : bool) : sabs1 (O:=O) (if b then 1 else 0 : F) = if b then 1 else 0.
+Proof. by rewrite /sabs1 /=; case: b; rewrite ?ltxx // ltNge ler01. Qed.
+
+Lemma argmax_keep (f : nat -> F) k : forall j best bv,
+  (forall j', (j <= j' < j + k)%N -> f j' <= bv) -> argmax_from (O:=O) f j k best bv = best.
+Proof.
+elim: k => [|k IH] j best bv le //=.
+have -> : (bv < f j) = false.
+  by apply/negbTE; rewrite -leNgt; apply: le; rewrite leqnn addnS ltnS leq_addr.
+apply: IH => j' /andP [a b].
+by apply: le; rewrite (ltnW a) /= addnS -addSn.
+Qed.
+
+Lemma argmax_hit (f : nat -> F) c k : forall j best,
+  (forall j', (j' < j + k)%N -> f j' = if j' == c then 1 else 0) ->
+  (j <= c < j + k)%N -> argmax_from (O:=O) f j k best 0 = c.
+Proof.
+elim: k => [|k IH] j best E /andP [jc ck]; first by move: ck; rewrite addn0 ltnNge jc.
+rewrite /= E; last by rewrite addnS ltnS leq_addr.
+case: (eqVneq j c) => [e|ne].
+  rewrite ltr01 -[RHS]e; apply: argmax_keep => j' /andP [a b].
+  rewrite E; last by rewrite addnS -addSn.
+  by case: ifP => _; rewrite ?lexx ?ler01.
+rewrite ltxx; apply: IH; first by move=> j' lt; apply: E; rewrite addnS -addSn.
+by rewrite addSnnS ck andbT ltn_neqAle ne jc.
+Qed.
+
+Lemma row_argmax_selector m n (H : 'M[F]_(m, n)) i c : (c < n)%N ->
+  (forall b, (b < n)%N -> mx_get H i b = if b == c then 1 else 0) ->
+  row_argmax_abs (O:=O) H i = c.
+Proof.
+case: n H => [|n] H // cn E; rewrite /row_argmax_abs.
+have Ef j' : (j' < 1 + n)%N -> sabs1 (O:=O) (mx_get H i j') = if j' == c then 1 else 0.
+  by move=> lt; rewrite E // sabs1_01.
+rewrite [mget _ _ _]/= Ef //; case: (eqVneq 0%N c) => [<-|ne].
+  apply: argmax_keep => j' /andP [a b]; rewrite Ef //.
+  by case: ifP => _; rewrite ?lexx ?ler01.
+by apply: argmax_hit; [exact: Ef | rewrite lt0n eq_sym ne add1n cn].
+Qed.
+
+Lemma firstn_S_nth (l : list nat) k : (k < length l)%coq_nat ->
+  firstn k.+1 l = firstn k l ++ [:: List.nth k l 0%N].
+Proof.
+revert k; induction l as [|x l IH]; intros [|k] lt; simpl in *; try lia; auto.
+rewrite IH; auto; lia.
+Qed.
+
+(* the two descriptions of a component-selecting sensor *)
+Lemma sensor_descriptions_selector n (idxs : list nat) (H : 'M[F]_(length idxs, n)) sd nr :
+  Forall (fun c => (c < n)%coq_nat) idxs ->
+  (forall a b, (a < length idxs)%N -> (b < n)%N -> mx_get H a b = if b == List.nth a idxs 0%N then 1 else 0) ->
+  sensor_descriptions (O:=O) H sd nr =
+  (mkDesc (d_lin sd) (d_circ sd) (d_noise sd + nr)%coq_nat,
+   mkDesc (length (List.filter (fun c => Nat.ltb c (d_lin sd)) idxs))
+          (length (List.filter (fun c => negb (Nat.ltb c (d_lin sd))) idxs)) 0).
+Proof.
+move=> inrange E; rewrite /sensor_descriptions /desc_add_noise /desc_linear_size /=.
+set step := (fun acc i => _).
+have P k : (k <= length idxs)%N ->
+    fold_left step (List.seq 0 k) (0%N, 0%N) =
+    (length (List.filter (fun c => Nat.ltb c (d_lin sd)) (firstn k idxs)),
+     length (List.filter (fun c => negb (Nat.ltb c (d_lin sd))) (firstn k idxs))).
+  elim: k => [|k IH] le //.
+  have kl : (k < length idxs)%coq_nat by apply/ssrnat.ltP.
+  rewrite seq_S fold_left_app IH 1?ltnW // firstn_S_nth // !filter_app !app_length /= /step /=.
+  have -> : row_argmax_abs (O:=O) H k = List.nth k idxs 0%N.
+    apply: row_argmax_selector; last by move=> b bn; apply: E.
+    by apply/ssrnat.ltP; move/Forall_forall: inrange; apply; apply: nth_In.
+  by case: (Nat.ltb _ _) => /=; rewrite ?Nat.add_0_r ?Nat.add_1_r.
+by rewrite P // firstn_all.
 Qed.
 
 (* ---------------------------------------------------------------- grid initialiser *)
@@ -455,7 +554,9 @@ have nz : n%:R - 1 != 0 :> F.
 by rewrite mulrCA divff // mulr1 addrC subrK.
 Qed.
 
-Lemma grid_positions_closed st' w' : grid_initialize (O:=O) xinf xsup yinf ysup nx ny st w = Some (st', w') ->
+Lemma grid_positions_closed st' w' : (2 <= nx)%N -> (2 <= ny)%N ->
+  grid_initialize (O:=O) xinf xsup yinf ysup nx ny st w = Some (st', w') ->
+  (nx%:R - 1 != 0 :> F) /\ (ny%:R - 1 != 0 :> F) /\
   forall i j r, (i < nx)%N -> (j < ny)%N -> (r < 4)%N ->
     mx_get (st' : 'M[F]_(4, np)) r (i * ny + j) =
     match r with
@@ -464,7 +565,11 @@ Lemma grid_positions_closed st' w' : grid_initialize (O:=O) xinf xsup yinf ysup 
     | _ => 0
     end.
 Proof.
-move=> E i j r ix jy r4; rewrite (grid_positions E) //.
+move=> x2 y2 E.
+have nz k : (2 <= k)%N -> k%:R - 1 != 0 :> F.
+  by move=> k2; rewrite subr_eq0 -[1]/(1%:R) eqr_nat neq_ltn orbC k2.
+split; first exact: nz. split; first exact: nz.
+move=> i j r ix jy r4; rewrite (grid_positions E) //.
 by case: r r4 => [|[|[|r]]] //= _; rewrite grid_coordE.
 Qed.
 
